@@ -97,10 +97,12 @@ def run(check: Check) -> None:
 
         def rep(model, label, formula=formula, efr=efr, out=out, fam=fam):
             p = {"kind": "c02_matrix", "formula": formula, "efr": efr, "output": out,
-                 "terms": [[list(t.factors), list(t.lits)] for t in fam],
-                 "a": [model_value(model, z3.Real(f"a{i}")) for i in range(n)],
-                 "b": [model_value(model, z3.Real(f"b{i}")) for i in range(n)]}
-            for cand in (p, dict(p, a=[float(i + 2) for i in range(n)], b=[float(3 * i + 1) % 7 + 0.5 for i in range(n)])):
+                 "terms": [[list(t.factors), list(t.lits)] for t in fam]}
+            generic = dict(p, a=[float(i) * 1.25 + 0.5 for i in range(n)], b=[(float(3 * i + 1) % 7) * 0.75 - 1.3 for i in range(n)])
+            cands = [generic]
+            if model is not None:
+                cands.insert(0, dict(p, a=[model_value(model, z3.Real(f"a{i}")) for i in range(n)], b=[model_value(model, z3.Real(f"b{i}")) for i in range(n)]))
+            for cand in cands:
                 bad = replays.run(cand)
                 if bad:
                     return (f"matrix(efr={efr})", bad, cand)
